@@ -246,6 +246,8 @@ pub trait Sp<S: Dom, const N: usize>: Copy + std::fmt::Debug {
     fn k_is_approx_zero(self) -> bool;
     fn k_is_magnitude_close_to(self, x: S) -> bool;
     fn k_angle_between(self, o: Self) -> S;
+    /// the deprecated `angle_between_degrees`
+    fn k_angle_between_degrees(self, o: Self) -> S;
     fn k_reflected(self, n: Self) -> Self;
     fn k_refracted(self, n: Self, eta: S) -> Self;
     fn k_face_forward(self, incident: Self, reference: Self) -> Self;
@@ -287,6 +289,8 @@ macro_rules! impl_sp {
             fn k_is_approx_zero(self) -> bool { vek::vec::repr_c::$V::<S>::is_approx_zero(self) }
             fn k_is_magnitude_close_to(self, x: S) -> bool { vek::vec::repr_c::$V::<S>::is_magnitude_close_to(self, x) }
             fn k_angle_between(self, o: Self) -> S { vek::vec::repr_c::$V::<S>::angle_between(self, o) }
+            #[allow(deprecated)]
+            fn k_angle_between_degrees(self, o: Self) -> S { vek::vec::repr_c::$V::<S>::angle_between_degrees(self, o) }
             fn k_reflected(self, n: Self) -> Self { vek::vec::repr_c::$V::<S>::reflected(self, n) }
             fn k_refracted(self, n: Self, eta: S) -> Self { vek::vec::repr_c::$V::<S>::refracted(self, n, eta) }
             fn k_face_forward(self, incident: Self, reference: Self) -> Self { vek::vec::repr_c::$V::<S>::face_forward(self, incident, reference) }
